@@ -248,8 +248,103 @@ def check_two_algorithms(name1, N1, G1, name2, N2, G2, seed):
     return out
 
 
+def check_rerun(name, plan, seed):
+    """ONE algorithm object run several times with the options changed in between (a pilot run, then the production run):
+    every run, judged on the designs it recorded itself, keeps the stated sizes and budget."""
+    import collections
+    from ..core import shim as shim_mod
+    from .c_support import make_problem, reset_ids, algorithm_class, std_objective
+    reset_ids()
+    cnt = {"ok": 0}
+    problem = make_problem(n_params=2, bounds=[[0.0, 1.0], [-2.0, 2.0]], criteria=["minimize", "minimize"], f=std_objective(2),
+                           after=lambda problem, individual: cnt.__setitem__("ok", cnt["ok"] + 1))
+    alg = algorithm_class(name)(problem)
+    alg.options['verbose_level'] = 0
+    sh = shim_mod.install()
+    sh.reset(seed, None)
+    out = []
+    try:
+        for r, (N, G) in enumerate(plan):
+            alg.options['max_population_number'] = G
+            alg.options['max_population_size'] = N
+            first, c0 = len(problem.individuals), cnt["ok"]
+            try:
+                alg.run()
+            except Exception as e:
+                out.append(("C09:rerun:%s:exception:%s" % (name, type(e).__name__), "run %d of plan %r raised %r" % (r + 1, plan, e)))
+                break
+            sizes = collections.Counter(i.population_id for i in problem.individuals[first:])
+            lo = 1 if name == "NSGAII" else 0
+            budget = N * G if name == "NSGAII" else N * (G + 1)
+            exp = {k: N for k in range(lo, G + 1)}
+            if dict(sizes) != exp or cnt["ok"] - c0 != budget:
+                out.append(("C09:rerun:%s:%s" % (name, "sizes" if dict(sizes) != exp else "budget"),
+                            "%s object run with plan %r: run %d (N=%d, G=%d) recorded generation sizes %r with %d evaluations, expected %r with %d" % (
+                                name, plan, r + 1, N, G, sorted(sizes.items()), cnt["ok"] - c0, sorted(exp.items()), budget)))
+                break
+    finally:
+        sh.ctx = None
+    return out
+
+
+def check_store_record(name, N, G, seed):
+    """The persisted record of a run (read back through a view of the store) shows the same generations as the memory."""
+    import atexit
+    import collections
+    import os
+    import tempfile
+    from artap.problem import ProblemViewDataStore
+    from .c_support import run_algorithm
+    db = os.path.join(tempfile.gettempdir(), "c09-%d-%s-%d-%d.sqlite" % (os.getpid(), name, N, G))
+    for ext in ("", "-journal"):
+        if os.path.exists(db + ext):
+            os.remove(db + ext)
+    out = []
+    problem, alg, exc = run_algorithm(name, None, seed, N, G, n_params=2, n_costs=2, store_path=db)
+    if exc is not None:
+        return [("C09:store-record:%s:exception:%s" % (name, type(exc).__name__), "run with a store raised %r" % (exc,))]
+    try:
+        problem.data_store.destroy()
+    except Exception:
+        pass
+    try:
+        view = ProblemViewDataStore(database_name=db)
+        atexit.unregister(view.cleanup)
+        sizes = collections.Counter(i.population_id for i in view.individuals)
+        view.data_store.destroy()
+    except Exception as e:
+        return [("C09:store-record:%s:exception:%s" % (name, type(e).__name__), "reading the store raised %r" % (e,))]
+    finally:
+        for ext in ("", "-journal"):
+            if os.path.exists(db + ext):
+                os.remove(db + ext)
+    lo = 1 if name == "NSGAII" else 0
+    got = {k: sizes.get(k, 0) for k in range(lo, G + 1)}
+    extra = sorted(k for k in sizes if k > G)
+    if any(v != N for v in got.values()) or extra:
+        out.append(("C09:store-record:%s:generation-sizes" % name,
+                    "%s N=%d G=%d: the stored record read back shows generation sizes %r (all tags %r), expected %d each" % (name, N, G, sorted(got.items()), sorted(sizes.items()), N)))
+    return out
+
+
 def _shard(shard, col: Collector):
     kind = shard[0]
+    if kind == "rerun":
+        _, seed = shard
+        plans = [((4, 2), (2, 3)), ((2, 1), (3, 2)), ((3, 2), (3, 2)), ((2, 2), (4, 1), (3, 1)), ((4, 1), (2, 2), (6, 1)), ((2, 3), (2, 1))]
+        for name in ("NSGAII", "EpsMOEA", "OMOPSO", "SMPSO"):
+            for plan in plans:
+                col.case()
+                col.nontrivial(("rerun", name, plan))
+                for key, msg in check_rerun(name, plan, seed):
+                    col.violation(key, "rerun", msg, {"name": name, "plan": plan, "seed": seed})
+            for (N, G) in ((2, 1), (3, 2), (4, 3), (5, 2)):
+                col.case()
+                col.nontrivial(("store", name, N, G))
+                for key, msg in check_store_record(name, N, G, seed):
+                    col.violation(key, "store", msg, {"name": name, "N": N, "G": G, "seed": seed})
+        col.sample({"kind": "one algorithm object run again with changed options; stored record read back", "plan": [[4, 2], [2, 3]]}, 1)
+        return
     if kind == "two":
         algs = ("NSGAII", "EpsMOEA", "OMOPSO", "SMPSO")
         for a in algs:
@@ -302,6 +397,10 @@ def _shard(shard, col: Collector):
 
 
 def replay(sub, case):
+    if sub == "rerun":
+        return check_rerun(case["name"], tuple(tuple(x) for x in case["plan"]), case["seed"])
+    if sub == "store":
+        return check_store_record(case["name"], case["N"], case["G"], case["seed"])
     if sub == "acc":
         return check_acceptance([tuple(c) for c in case["pop"]], tuple(case["x"]), case["pick"])
     if sub == "run":
@@ -352,5 +451,6 @@ def run(tier, seed):
                         for part in range(nparts):
                             shards.append(("run", name, N, G, nparams, ncosts, streams[0], 1, part, nparts, constraint))
     shards.append(("two", seed))
+    shards.append(("rerun", seed))
     col = run_shards(_shard, shards)
     return col, {"exhaustive": col.counters.get("caps_hit", 0) == 0, "streams": streams}
